@@ -793,10 +793,11 @@ class World:
 
     def op_load(self, cl, op, rec):
         coeffs = self.L.coeffs
-        fn = {"biort": lambda: coeffs.biort(op["name"]),
-              "level1": lambda: coeffs.level1(op["name"]),
-              "level1c": lambda: coeffs.level1(op["name"], compact=True),
-              "qshift": lambda: coeffs.qshift(op["name"])}[op["loader"]]
+        nm = name_form(op["name"], op.get("form", "plain"))
+        fn = {"biort": lambda: coeffs.biort(nm),
+              "level1": lambda: coeffs.level1(nm),
+              "level1c": lambda: coeffs.level1(nm, compact=True),
+              "qshift": lambda: coeffs.qshift(nm)}[op["loader"]]
         status, val = cl.guarded(fn)
         self._finish(cl, rec, status, val)
         if status == "ok":
@@ -911,6 +912,25 @@ def roundtrip(fm, im, x):
     return im((yl, yh)), y
 
 
+class _StrSub(str):
+    pass
+
+
+def name_form(name, form):
+    """The same table name in another argument form."""
+    if form == "npstr":
+        return np.str_(name)
+    if form == "strsub":
+        return _StrSub(name)
+    if form == "upper":
+        return name.upper()
+    if form == "padded":
+        return " " + name + " "
+    if form == "suffixed":
+        return name + ".npz"
+    return name
+
+
 def check_args_untouched(before, ident):
     for t, b in before:
         if raw_bytes(t) != b:
@@ -954,10 +974,11 @@ def freeze_pyramid(low, highs):
         if t is None:
             return None
         return (t.detach().clone(), bool(t.requires_grad))
-    return (fz(low), [fz(h) for h in highs], isinstance(highs, tuple), not low.is_contiguous())
+    return (fz(low), [fz(h) for h in highs], isinstance(highs, tuple), not low.is_contiguous(),
+            [bool(h is not None and h.dim() >= 2 and not h.is_contiguous()) for h in highs])
 
 
-def thaw_pyramid(fr):
+def thaw_pyramid(fr, contiguous=False):
     def th(f):
         if f is None:
             return None
@@ -967,8 +988,15 @@ def thaw_pyramid(fr):
         return t
     low = th(fr[0])
     highs = [th(f) for f in fr[1]]
-    if len(fr) > 3 and fr[3] and low.dim() >= 2 and not low.requires_grad:
+    if len(fr) > 3 and fr[3] and low.dim() >= 2 and not low.requires_grad and not contiguous:
         low = low.transpose(-1, -2).contiguous().transpose(-1, -2)
+    if contiguous:
+        low = low.contiguous() if not low.requires_grad else low
+        highs = [h.contiguous() if (h is not None and not h.requires_grad) else h for h in highs]
+    elif len(fr) > 4:
+        highs = [h.transpose(-1, -2).contiguous().transpose(-1, -2)
+                 if (nc and h is not None and not h.requires_grad) else h
+                 for h, nc in zip(highs, fr[4])]
     if len(fr) > 2 and fr[2]:
         highs = tuple(highs)
     leaves = [t for t in [low] + list(highs) if t is not None and t.requires_grad]
@@ -1018,6 +1046,10 @@ def build_pyramid(torch, fwd_family, outputs, op):
     if op.get("low_view") and low.dim() >= 2 and not low.requires_grad:
         # same values, non-contiguous memory
         low = low.transpose(-1, -2).contiguous().transpose(-1, -2)
+    if op.get("high_view"):
+        highs = [h.transpose(-1, -2).contiguous().transpose(-1, -2)
+                 if (h is not None and h.dim() >= 2 and not h.requires_grad) else h
+                 for h in highs]
     if op.get("as_tuple"):
         highs = tuple(highs)
     leaves = [t for t in [low] + list(highs) if t is not None and t.requires_grad]
